@@ -267,3 +267,133 @@ def estimate_total_independent(measurements):
     est, var = np.array(est), np.array(var)
     V = 1.0 / np.sum(1.0 / var)
     return max(1.0, float(V * np.sum(est / var)))
+
+
+# ----------------------------------------------------------------------------- C17: the convexified free-energy programme
+def region_shape(r, attrs, shape):
+    attrs = list(attrs)
+    return tuple(shape[attrs.index(a)] for a in r)
+
+
+def marg_matrix(p, r, attrs, shape):
+    """0/1 matrix M (cells of r x cells of p, C order over the tuple's own axis order) with M @ vec(mu_p) = vec(mu_p projected on r)."""
+    sp, sr = region_shape(p, attrs, shape), region_shape(r, attrs, shape)
+    n_p = int(np.prod(sp))
+    idx = np.indices(sp).reshape(len(p), -1)
+    ridx = np.ravel_multi_index([idx[p.index(a)] for a in r], sr)
+    M = np.zeros((int(np.prod(sr)), n_p))
+    M[ridx, np.arange(n_p)] = 1.0
+    return M
+
+
+def layout(regions, attrs, shape):
+    sizes = [int(np.prod(region_shape(r, attrs, shape))) for r in regions]
+    offs = np.concatenate([[0], np.cumsum(sizes)]).astype(int)
+    return sizes, offs
+
+
+def constraint_matrix(regions, attrs, shape, pairs):
+    """Rows: one normalisation row per region, then for every (p, r) in pairs and every cell of r the row
+    (marginal of p on that cell) - (that cell of r).  Acts on the stacked vector of all region tables."""
+    sizes, offs = layout(regions, attrs, shape)
+    n = offs[-1]
+    rows = []
+    for i, r in enumerate(regions):
+        e = np.zeros(n)
+        e[offs[i]:offs[i + 1]] = 1.0
+        rows.append(e)
+    for p, r in pairs:
+        i, j = regions.index(p), regions.index(r)
+        M = marg_matrix(p, r, attrs, shape)
+        blk = np.zeros((M.shape[0], n))
+        blk[:, offs[i]:offs[i + 1]] = M
+        blk[:, offs[j]:offs[j + 1]] -= np.eye(sizes[j])
+        rows.extend(blk)
+    return np.array(rows)
+
+
+def free_energy(theta, p, regions):
+    """sum_r <theta_r, p_r> + H(p_r)  (unit counting numbers); p_r probability tables."""
+    F = 0.0
+    for r in regions:
+        q = np.asarray(p[r], dtype=float).ravel()
+        t = np.asarray(theta[r], dtype=float).ravel()
+        nz = q > 0
+        F += float(t[nz] @ q[nz]) - float(np.sum(q[nz] * np.log(q[nz])))
+    return F
+
+
+def _lse(x):
+    m = x.max()
+    return m + np.log(np.exp(x - m).sum())
+
+
+def dual_solve(theta, regions, attrs, shape, edges, maxiter=20000):
+    """Independent solver of  max sum_r <theta_r,p_r> + H(p_r)  s.t. p_r in simplex, p_p projected on r = p_r for (p,r) in edges,
+    through its Lagrangian dual  D(lam) = sum_r logsumexp(theta_r + sum_{(r,c)} M_rc^T lam_rc - sum_{(p,r)} lam_pr)  minimised by
+    L-BFGS (scipy).  Every D(lam) is an upper bound on the primal optimum (weak duality).
+    -> (D value, {r: p_r(lam)}, max infeasibility of p(lam))"""
+    from scipy.optimize import minimize
+    Ms = {(p, r): marg_matrix(p, r, attrs, shape) for p, r in edges}
+    sizes = [Ms[e].shape[0] for e in edges]
+    offs = np.concatenate([[0], np.cumsum(sizes)]).astype(int)
+    th = {r: np.asarray(theta[r], dtype=float).ravel() for r in regions}
+
+    def tables(lam):
+        eta = {r: th[r].copy() for r in regions}
+        for k, (p, r) in enumerate(edges):
+            l = lam[offs[k]:offs[k + 1]]
+            eta[p] = eta[p] + Ms[p, r].T @ l
+            eta[r] = eta[r] - l
+        D = 0.0
+        P = {}
+        for r in regions:
+            z = _lse(eta[r])
+            D += z
+            P[r] = np.exp(eta[r] - z)
+        return D, P
+
+    def fg(lam):
+        D, P = tables(lam)
+        g = np.concatenate([Ms[p, r] @ P[p] - P[r] for p, r in edges]) if edges else np.zeros(0)
+        return D, g
+
+    lam = np.zeros(offs[-1])
+    if len(lam):
+        res = minimize(fg, lam, jac=True, method='L-BFGS-B', options=dict(maxiter=maxiter, maxfun=4 * maxiter, ftol=1e-16, gtol=1e-11, maxcor=50))
+        lam = res.x
+        # a few damped Newton steps on the (singular, hence regularised) dual Hessian to polish
+        for _ in range(20):
+            D, g = fg(lam)
+            if np.abs(g).max() < 1e-13:
+                break
+            eps = 1e-6
+            H = np.zeros((len(lam), len(lam)))
+            # finite-difference-free Hessian: d g / d lam = A diag-cov A^T assembled region by region
+            Dv, P = tables(lam)
+            for r in regions:
+                cols = []
+                for k, (p, c) in enumerate(edges):
+                    if p == r:
+                        cols.append((k, Ms[p, c]))
+                    elif c == r:
+                        cols.append((k, -np.eye(len(P[r]))))
+                if not cols:
+                    continue
+                C = np.diag(P[r]) - np.outer(P[r], P[r])
+                for k1, B1 in cols:
+                    for k2, B2 in cols:
+                        H[offs[k1]:offs[k1 + 1], offs[k2]:offs[k2 + 1]] += B1 @ C @ B2.T
+            step = np.linalg.lstsq(H + 1e-12 * np.eye(len(lam)), g, rcond=1e-12)[0]
+            t = 1.0
+            while t > 1e-4:
+                D2, g2 = fg(lam - t * step)
+                if D2 <= D + 1e-15 and np.abs(g2).max() < np.abs(g).max():
+                    lam = lam - t * step
+                    break
+                t *= 0.5
+            else:
+                break
+    D, P = tables(lam)
+    infeas = max([float(np.abs(Ms[p, r] @ P[p] - P[r]).max()) for p, r in edges] + [0.0])
+    return D, {r: P[r].reshape(region_shape(r, attrs, shape)) for r in regions}, infeas
